@@ -97,8 +97,17 @@ def under_resolution(d, n, h, tree=None, x=None):
 
 
 def under_resolved_probe(ctx):
-    """deterministic probe of the recorded finding C02-under-resolved-at-final-step"""
+    """deterministic probes of the recorded findings C02-under-resolved-at-final-step and C02-complex-estimate-blind-to-truncation"""
     import numdifftools as nd
+    g = lambda x: (x * ((x ** 3 - (x - x)) / (1.0 + ((np.cos(x) * np.arctan(x)) * (np.cos(x) * np.arctan(x))))))
+    gx, gexact = -71.90686125680566, 61633275.77111569
+    with warnings.catch_warnings():
+        warnings.simplefilter('ignore')
+        gv, ginfo = nd.Derivative(g, n=4, method='complex', order=4, full_output=True)(gx)
+    if abs(float(gv) - gexact) > K_EST * float(ginfo.error_estimate) + 1e-5 * abs(gexact):
+        ctx.violation('true error exceeds %g x error_estimate + rounding floor' % K_EST, got=float(gv), exact=gexact,
+                      error_estimate=float(ginfo.error_estimate), final_step=float(ginfo.final_step), x=gx, method='complex', n=4, order=4,
+                      signature='C02-complex-estimate-blind-to-truncation')
     f = lambda x: ((np.expm1(0.05 * x) - (1.0 + (1.0 * x * 1.0 * x)) ** 2.5) /
                    (2.0 + (np.expm1(2.0 * np.sin(np.sin(x))) * np.expm1(2.0 * np.sin(np.sin(x))))))
     x, exact = 15.71588204554346, -14534768.5074242
@@ -259,6 +268,10 @@ def derivative_search(ctx, budget, honesty):
                 hfin = abs(float(np.ravel(info.final_step)[pick]))
                 ur = under_resolution(d, n, hfin, tree, x)
                 sig2 = sig or ('C02-under-resolved-at-final-step' if ur > 0.25 else None)
+                if sig2 is None and m == 'complex' and n >= 3 and 'step' not in kw and \
+                        ur * abs(d[n]) > K_EST * est + FLOOR[(m, n)] * S + resolution:
+                    # recorded finding: complex, n >= 3, default steps — the truncation scale at the final step dwarfs the estimate
+                    sig2 = 'C02-complex-estimate-blind-to-truncation'
                 ctx.violation('true error exceeds %g x error_estimate + rounding floor' % K_EST, got=v, error=err, error_estimate=est,
                               floor=FLOOR[(m, n)] * S + resolution, final_step=hfin, under_resolution=ur, signature=sig2, **rep)
     if honesty:
